@@ -55,4 +55,10 @@ PROPS = {
         'correspondence': 'NetworkRule.Match of the implementation vs rule_match of the model on the rule parsed by the model and the request rebuilt by the model (PublicSuffix answers for the two hostnames are oracle inputs)',
         'assumptions': ['ASCII fragment; regex rules outside the modelled RE2 fragment are counted unsupported', 'request tags sorted (documented caller obligation)'],
     },
+    'C17': {
+        'harness': 'c17',
+        'rule': 'URLs scheme://host[:port] followed by nothing, a path or a query, optionally a fragment (8 schemes incl. upper case and schemes with "." "+" "-"), hosts from a pool exercising multi-level public suffixes, wildcard (*.ck, *.kawasaki.jp, *.nom.br) and exception (!www.ck, !city.kawasaki.jp) PSL rules, private suffixes, unknown TLDs, single labels and IPv4 literals, upper-case variants, URLs longer than 4096 bytes; 2/3 with a source URL of the same shape; a separate stream of out-of-contract strings (userinfo, IPv6 literal, non-hierarchical, fragment after host, empty labels); hostname requests; non-trivial = a non-empty hostname was extracted; for in-contract inputs the harness also compares the implementation with net/url and publicsuffix directly',
+        'correspondence': 'Hostname, Domain, SourceHostname, SourceDomain, ThirdParty, URLLowerCase of NewRequest / NewRequestForHostname vs the model (PublicSuffix answers for the hostnames are oracle inputs)',
+        'assumptions': ['ASCII URLs (others counted unsupported: ToLower is Unicode-aware in Go)'],
+    },
 }
